@@ -3,51 +3,55 @@ from pyvc.contracts import contract
 
 EV_REQ = ["wf_ctx(context)", "det(context.env)", "wf_expr(self, context.env)"]
 
+EV_ENS = ["result == eval_expr(self, context)", "eval_typed(self, context.env, result)"]
+
 contract("filter_expressions:Expression.evaluate", abstract=True,
     requires=["isinstance(self, Expression)"] + EV_REQ,
-    ensures=["result == eval_expr(self, context)"],
-    raises=["JSONPathError"], props=["C02", "C06", "C10", "C13"])
+    ensures=EV_ENS,
+    raises=["JSONPathError"], props=["C02", "C06", "C10", "C13"],
+    note="eval_typed: the typing half of the contract (a test evaluates to a nodelist or a bool, a comparand to a value / Nothing / "
+         "a nodelist with at most one well-formed node); every override proves it, callers rely on it")
 
 contract("filter_expressions:_is_truthy",
     requires=["is_nodelist(obj) or is_bool(obj)"],
     ensures=["result == truth_of(obj)"], raises=[], props=["C02"],
     note="operands of tests are nodelists or LogicalType results in well-typed queries (wf_expr: logical_typed)")
 
-contract("filter_expressions:FilterExpression.evaluate", heavy=True,
-    requires=EV_REQ, unfold=["wf_filter_e", "eval_filter"],
-    ensures=["result == eval_expr(self, context)"], raises=["JSONPathError"], props=["C02", "C13"])
+contract("filter_expressions:FilterExpression.evaluate",
+    requires=EV_REQ, unfold=["wf_filter_e", "eval_filter", "is_json"],
+    ensures=EV_ENS, raises=["JSONPathError"], props=["C02", "C13"])
 
 contract("filter_expressions:FilterExpressionLiteral.evaluate",
-    requires=["isinstance(self, FilterExpressionLiteral)"],
-    ensures=["result == eval_expr(self, _)"], raises=[], props=["C02", "C06"])
+    requires=["isinstance(self, FilterExpressionLiteral)", "wf_ctx(_)", "wf_expr(self, _.env)"], unfold=["is_json"],
+    ensures=["result == eval_expr(self, _)", "eval_typed(self, _.env, result)"], raises=[], props=["C02", "C06"])
 
-contract("filter_expressions:PrefixExpression.evaluate", heavy=True,
-    requires=EV_REQ, unfold=["wf_prefix_e", "eval_prefix"],
-    ensures=["result == eval_expr(self, context)"], raises=["JSONPathError"], props=["C02", "C13"])
+contract("filter_expressions:PrefixExpression.evaluate",
+    requires=EV_REQ, unfold=["wf_prefix_e", "eval_prefix", "is_json"],
+    ensures=EV_ENS, raises=["JSONPathError"], props=["C02", "C13"])
 
-contract("filter_expressions:LogicalExpression.evaluate", heavy=True,
-    requires=EV_REQ, unfold=["wf_logical_e", "eval_logical"],
-    ensures=["result == eval_expr(self, context)"], raises=["JSONPathError"], props=["C02", "C13"])
+contract("filter_expressions:LogicalExpression.evaluate",
+    requires=EV_REQ, unfold=["wf_logical_e", "eval_logical", "is_json"],
+    ensures=EV_ENS, raises=["JSONPathError"], props=["C02", "C13"])
 
 contract("filter_expressions:ComparisonExpression.evaluate", heavy=True,
-    requires=EV_REQ, unfold=["wf_comparison_e", "eval_comparison"],
-    ensures=["result == eval_expr(self, context)"], raises=["JSONPathError"], props=["C06", "C02", "C13"],
+    requires=EV_REQ, unfold=["wf_comparison_e", "eval_comparison", "is_json"],
+    ensures=EV_ENS, raises=["JSONPathError"], props=["C06", "C02", "C13"],
     lemmas=["singular_at_most_one"])
 
 contract("filter_expressions:RelativeFilterQuery.evaluate", heavy=True,
     requires=EV_REQ, unfold=["eval_relative", "wf_query", "wf_ctx"],
-    ensures=["result == eval_expr(self, context)"],
+    ensures=EV_ENS,
     loops={1: ["wf_nodes(nodes)",
                "implies(no_pending(nodes), seq(nodes) == apply_segments(seq(self.query.segments), [Node(context.current, mk_tuple([]), context.root)], i1))"]},
     raises=["JSONPathError"], props=["C02", "C10", "C13"])
 
 contract("filter_expressions:RootFilterQuery.evaluate", heavy=True,
     requires=EV_REQ, unfold=["eval_root", "wf_query"],
-    ensures=["result == eval_expr(self, context)"], raises=["JSONPathError"], props=["C02", "C13"])
+    ensures=EV_ENS, raises=["JSONPathError"], props=["C02", "C13"])
 
 contract("filter_expressions:FunctionExtension.evaluate", heavy=True,
     requires=EV_REQ, unfold=["wf_call_e", "eval_call", "wf_env", "wf_registry"],
-    ensures=["result == eval_expr(self, context)"], raises=["JSONPathError"], props=["C10", "C13"])
+    ensures=EV_ENS, raises=["JSONPathError"], props=["C10", "C13"])
 
 contract("filter_expressions:FunctionExtension._unpack_node_lists", heavy=True,
     requires=["wf_func(func)", "is_arr(args)", "len(args) == len(func.arg_types)"], unfold=["wf_func"],
